@@ -226,6 +226,21 @@ static void blk_builders(void) {
 			if (ll != l0 + al || memcmp(list, before, l0) || memcmp(list + l0, alone, al) || memcmp(list + l0 + al, before + l0 + al, sizeof list - l0 - al)) { snprintf(key, sizeof key, "C15:extension-builders:%s:does-not-append", BLD[b].name); vh_viol(key, "\"after\":\"%s\",\"elements_before\":%d,\"len_before\":%zu,\"len_after\":%zu,\"own_len\":%zu,\"prefix_intact\":%d", p1 < 0 ? "" : BLD[p1].name, p1 < 0 ? 0 : 1 + two, l0, ll, al, !memcmp(list, before, l0)); } }
 		if (p1 < 0) vh_sample("{\"block\":\"extension-builders-append\",\"builder\":\"%s\"}", BLD[b].name); }
 }
+/* UserNotice (certificatePolicies qualifier): the writer accepts a notice reference, an explicit text, or both; reading it back into variables that hold the values of a
+   previously read notice must report exactly what was written - an absent part as absent (NULL / 0), not as the previous notice's */
+static void blk_user_notice(void) {
+	if (!vh_block_begin("user-notice")) return; static const uint8_t ORG[] = "Example Org", TXT[] = "explicit text"; static const int NUMS[3] = { 1, 7, 300 };
+	for (int form = 1; form < 4; form++) for (int nn = 0; nn < 2; nn++) { if (!vh_next()) continue; int ref = form & 1, txt = (form & 2) != 0; if (!ref && nn) continue; uint8_t der[200], *p = der; size_t dl = 0;
+		int r = x509_user_notice_to_der(ASN1_TAG_UTF8String, ref ? ORG : NULL, ref ? sizeof ORG - 1 : 0, ref ? NUMS : NULL, ref ? (nn ? 3 : 1) : 0, ASN1_TAG_UTF8String, txt ? TXT : NULL, txt ? sizeof TXT - 1 : 0, &p, &dl); vh_eval(vh_mix(form * 2 + nn + 660001)); char key[160];
+		if (r != 1) { snprintf(key, sizeof key, "C15:user-notice:writer-refuses:%s%s", ref ? "reference" : "", txt ? "+text" : ""); vh_viol(key, "\"ret\":%d", r); continue; }
+		/* caller's variables hold a previous notice */ int otag = ASN1_TAG_IA5String, ttag = ASN1_TAG_IA5String; const uint8_t *org = (const uint8_t *)"stale-org", *tx = (const uint8_t *)"stale-text"; size_t ol = 9, txl = 10; int nums[8] = { 99, 98, 97, 96, 95, 94, 93, 92 }; size_t cnt = 5; const uint8_t *cp = der; size_t il = dl;
+		r = x509_user_notice_from_der(&otag, &org, &ol, nums, &cnt, 8, &ttag, &tx, &txl, &cp, &il); vh_eval(vh_mix(form * 2 + nn + 660011));
+		if (r != 1 || il) { snprintf(key, sizeof key, "C15:user-notice:own-encoding-refused"); vh_viol(key, "\"form\":%d,\"ret\":%d", form, r); continue; }
+		int bad = 0; if (ref) { if (ol != sizeof ORG - 1 || memcmp(org, ORG, ol) || cnt != (size_t)(nn ? 3 : 1) || nums[0] != 1 || (nn && (nums[1] != 7 || nums[2] != 300))) bad |= 1; } else if (org != NULL || ol != 0 || cnt != 0) bad |= 2;
+		if (txt) { if (txl != sizeof TXT - 1 || memcmp(tx, TXT, txl)) bad |= 4; } else if (tx != NULL || txl != 0) bad |= 8;
+		if (bad) { snprintf(key, sizeof key, "C15:user-notice:%s", (bad & 10) ? "absent-part-reported-with-the-callers-previous-values" : "field-differs"); vh_viol(key, "\"reference_written\":%d,\"text_written\":%d,\"mask\":%d,\"org_len\":%zu,\"numbers\":%zu,\"text_len\":%zu", ref, txt, bad, ol, cnt, txl); }
+		vh_sample("{\"block\":\"user-notice\",\"reference\":%d,\"numbers\":%d,\"text\":%d,\"derlen\":%zu}", ref, ref ? (nn ? 3 : 1) : 0, txt, dl); }
+}
 /* extension values of every size around the DER length-form boundaries (127/128, 255/256): issued certificate must carry a well-formed
    extension block in which every extension supplied is found again, with its criticality and exactly its value */
 static void blk_ext_sizes(void) {
@@ -256,5 +271,5 @@ static void blk_names(void) {
 		if (ok && c.n) { ok = 0; why = "extra-rdn"; } if (!ok) { snprintf(key, sizeof key, "C15:names:%s", why); vh_viol(key, "\"kinds\":\"%d%d%d%d%d%d\",\"attribute\":%d,\"name\":\"%s\"", kind[0], kind[1], kind[2], kind[3], kind[4], kind[5], at, vh_hex(nm, nl > 120 ? 120 : nl)); continue; }
 		if ((mask % 7) == 0 || vh_thorough) { static uint8_t cert[2048]; uint8_t *p = cert; size_t cl = 0; uint8_t serial[2] = { 2, (uint8_t)mask }; venv_reset(7000 + mask); r = x509_cert_sign_to_der(X509_version_v3, serial, 2, OID_sm2sign_with_sm3, NAME_I, NIL, VENV_NOW - 1000, VENV_NOW + 100000, nm, nl, &CK[0], NULL, 0, NULL, 0, NULL, 0, &CK[1], SM2_DEFAULT_ID, 16, &p, &cl); const uint8_t *sub; size_t subl; if (r != 1 || x509_cert_get_subject(cert, cl, &sub, &subl) != 1 || subl != nl || memcmp(sub, nm, nl)) { vh_viol("C15:names:subject-not-returned-as-supplied", "\"kinds\":\"%d%d%d%d%d%d\",\"ret\":%d", kind[0], kind[1], kind[2], kind[3], kind[4], kind[5], r); } } }
 }
-static void body(void) { blk_certs(); blk_unique_ids(); blk_general_names(); blk_ext_content(); blk_reqs(); blk_crls(); blk_crl_entry_exts(); blk_builders(); blk_ext_sizes(); blk_names(); }
+static void body(void) { blk_certs(); blk_unique_ids(); blk_general_names(); blk_ext_content(); blk_reqs(); blk_crls(); blk_crl_entry_exts(); blk_builders(); blk_user_notice(); blk_ext_sizes(); blk_names(); }
 int main(int argc, char **argv) { vh_init(argc, argv); if (!freopen("/dev/null", "w", stderr)) {} creds_init(); make_name(NAME_I, &NIL, "Issuer"); x509_name_set(NAME_S, &NSL, sizeof NAME_S, "CN", "Beijing", "Haidian", "PKU", "CS", "Subject"); vh_guarded("C15", body, 120); return vh_finish(); }
